@@ -16,6 +16,21 @@ impl<U, V> Eq<U, V> {
 
 impl<U: View, V: View> Prune for Eq<U, V> {
     fn prune(&self, ctx: &mut Context) -> Option<()> {
+        // A float variable against a float constant: only the variable's setters decide, the
+        // constant's exact re-test cannot accept bounds quantised to the step grid (see
+        // `bound_float_variable_above`)
+        use crate::constraints::props::leq::{
+            bound_float_variable_above, bound_float_variable_below, is_float_constant, is_float_variable,
+        };
+        if is_float_constant(self.y, ctx) && is_float_variable(self.x, ctx) {
+            bound_float_variable_below(self.x, self.y.min(ctx), ctx)?;
+            return bound_float_variable_above(self.x, self.y.max(ctx), ctx);
+        }
+        if is_float_constant(self.x, ctx) && is_float_variable(self.y, ctx) {
+            bound_float_variable_below(self.y, self.x.min(ctx), ctx)?;
+            return bound_float_variable_above(self.y, self.x.max(ctx), ctx);
+        }
+
         let _min = self.x.try_set_min(self.y.min(ctx), ctx)?;
         let _max = self.x.try_set_max(self.y.max(ctx), ctx)?;
 
